@@ -1,6 +1,7 @@
 """C18 A dump that fails validation leaves the destination file untouched (fault enumeration)."""
 import copy
 import os
+import pathlib
 import shutil
 import tempfile
 
@@ -114,13 +115,18 @@ def run_trials(kind, obj, dump, change):
                     return orig(*a, **kw)
                 setattr(inst, name, faulty)
                 raised = False
+                # the destination as the caller spells it: a str, or any os.PathLike (whether or not that is supported, a failing
+                # dump leaves the file alone)
+                spelled = pathlib.Path(dest) if (n_fp // 2) % 3 == 2 else dest
                 try:
                     try:
-                        dump(dest)
+                        dump(spelled)
                     except Injected:
                         raised = True
                     except Exception as exc:  # noqa
-                        raise Violation("unexpected-exception-under-fault", "%s.%s k=%d: %s: %s" % (path, name, k, type(exc).__name__, exc))
+                        if spelled is dest:
+                            raise Violation("unexpected-exception-under-fault", "%s.%s k=%d: %s: %s" % (path, name, k, type(exc).__name__, exc))
+                        raised = True          # this tree does not take os.PathLike destinations: one more way for a dump to fail
                 finally:
                     delattr(inst, name)
                 trials += 1
